@@ -110,7 +110,7 @@ class Prop(common.PropertyCheck):
         form = form or {}
         return {'subset': sorted(subset), 'ill': sorted(illformed), 'timech': timech, 'seed': rng.randrange(1 << 30),
                 'version': rng.choice(['FCS2.0', 'FCS3.0', 'FCS3.1']), 'creator': rng.choice(['CellQuest Pro 5.2', 'FlowJoCollectorsEdition 7.5', 'Other']),
-                'form': form, 'dt': rng.choice(['I', 'I', 'F']), 'D': rng.choice([3, 3, 3, 11, 12])}
+                'form': form, 'dt': rng.choice(['I', 'I', 'F']), 'D': rng.choice([3, 3, 3, 11, 12]), 'nev': rng.choice([3, 3, 1, 2])}
 
     def gen_cases(self):
         rng = self.rng
@@ -155,6 +155,7 @@ class Prop(common.PropertyCheck):
             if 'CytekPnnG' in sub:
                 extra.append(['CytekP%02dG' % i, val('CytekPnnG', 'G')])
         ev = [[5, 10, 100] + [3] * (D - 3), [7, 20, 250] + [4] * (D - 3), [9, 30, 400] + [5] * (D - 3)]
+        ev = ev[:case.get('nev', 3)]
         dt = case.get('dt', 'I')
         if dt == 'F':
             import struct
@@ -250,7 +251,8 @@ class Prop(common.PropertyCheck):
         if 'acq_err' in impl:
             return 'acquisition_time raised %s (keywords %s, ill-formed %s, time channel %s)' % (impl['acq_err'], case['subset'], case['ill'], case['timech'])
         if len(tch) == 1 and want_ts is not None:
-            want = (400 - 100) * want_ts
+            last = {1: 100, 2: 250, 3: 400}[case.get('nev', 3)]        # value of the time channel in the last event (first: 100)
+            want = (last - 100) * want_ts
             src = 'time channel'
         elif impl['start'] is not None and impl['stop'] is not None:
             s, e = impl['start']['time'], impl['stop']['time']
